@@ -1215,7 +1215,7 @@ impl InstrFormat for TimelineFormat06 {
         f.write_i16(llir::header_field(emitter, "time", instr.time)?)?;
         f.write_i16(instr.extra_arg.unwrap_or(0) as _)?;
         f.write_u16(instr.opcode)?;
-        f.write_u16(llir::header_field(emitter, "instruction size", self.instr_size(instr) as i64)?)?;
+        f.write_i16(llir::header_field(emitter, "instruction size", self.instr_size(instr) as i64)?)?;  // (read_instr reads an i16)
         f.write_all(&instr.args_blob)?;
         Ok(())
     }
